@@ -17,6 +17,17 @@ MODE_STMT = {"normal": "pass", "exc": "raise ValueError('boom')", "excBrokenStr"
              "x:type": "1 + 'a'", "x:index": "[][0]", "x:attr": "None.foo", "x:assert": "assert False, 'nope'",
              "x:stopiter": "next(iter([]))", "x:bareexc": "raise Exception", "x:args2": "raise ValueError('a', 2)",
              "x:custominit": "raise CustomInit(1, 2)", "x:oserror": "raise OSError(2, 'No such file')",
+             # further exception shapes (student-raised SyntaxError with and without details, classes with odd names,
+             # groups, chained exceptions, non-string arguments)
+             "x:syntaxOther": "raise SyntaxError('bad', ('other.py', 3, 1, 'x = ('))",
+             "x:syntaxSelf": "raise SyntaxError('bad', ('answer.py', 1, 1, 'x = ('))", "x:syntaxBare": "raise SyntaxError",
+             "x:indent": "raise IndentationError('bad indent', ('answer.py', 1, 1, '  x'))",
+             "x:noname": "raise NoName()", "x:lowername": "raise oops('x')", "x:group": "raise ExceptionGroup('g', [ValueError('a')])",
+             "x:unicode": "'\\ud800'.encode('utf-8')", "x:memory": "raise MemoryError", "x:notimpl": "raise NotImplementedError",
+             "x:warn": "raise Warning('w')", "x:stopasync": "raise StopAsyncIteration", "x:argsnonstr": "raise ValueError(1, [2], {3: 4})",
+             "x:tuplekey": "raise KeyError(('a', 1))",
+             "x:chained": (["try:", "    1 / 0", "except ZeroDivisionError as e:", "    raise ValueError('second') from e"], 3),
+             "x:ctxchained": (["try:", "    1 / 0", "except ZeroDivisionError:", "    undefined_name_q"], 3),
              # (lines, index of the line the failure is raised on)
              "reraise": (["try:", "    raise ValueError('boom')", "except ValueError:", "    cleanup = 1", "    raise"], 1),
              "nested": (["helper_raises()"], None)}
@@ -29,11 +40,17 @@ MODE_CLASS = {"exc": "ValueError", "excBrokenStr": "BrokenStr", "excBrokenRepr":
               "x:zero": "ZeroDivisionError", "x:name": "NameError", "x:type": "TypeError", "x:index": "IndexError",
               "x:attr": "AttributeError", "x:assert": "AssertionError", "x:stopiter": "StopIteration",
               "x:bareexc": "Exception", "x:args2": "ValueError", "x:custominit": "CustomInit", "x:oserror":
-              ("OSError", "FileNotFoundError"), "reraise": "ValueError", "nested": "ValueError"}
+              ("OSError", "FileNotFoundError"), "reraise": "ValueError", "nested": "ValueError",
+              "x:syntaxOther": "SyntaxError", "x:syntaxSelf": "SyntaxError", "x:syntaxBare": "SyntaxError",
+              "x:indent": "IndentationError", "x:noname": "", "x:lowername": "oops", "x:group": "ExceptionGroup",
+              "x:unicode": "UnicodeEncodeError", "x:memory": "MemoryError", "x:notimpl": "NotImplementedError",
+              "x:warn": "Warning", "x:stopasync": "StopAsyncIteration", "x:argsnonstr": "ValueError", "x:tuplekey": "KeyError",
+              "x:chained": "ValueError", "x:ctxchained": "NameError"}
 # modes whose failure is raised on the student's own line (location is checked only for these)
 STUDENT_LINE = {"exc", "excBrokenStr", "excBrokenRepr", "raiseSysExit", "sysexit", "x:keyBare", "x:key", "x:zero",
                 "x:name", "x:type", "x:index", "x:attr", "x:assert", "x:bareexc", "x:args2", "x:custominit",
-                "x:oserror", "reraise", "nested"}
+                "x:oserror", "reraise", "nested", "x:noname", "x:lowername", "x:group", "x:unicode", "x:memory", "x:notimpl",
+                "x:warn", "x:stopasync", "x:argsnonstr", "x:tuplekey", "x:chained", "x:ctxchained", "x:syntaxBare"}
 PRELUDE = """import sys
 class BrokenStr(Exception):
     def __str__(self):
@@ -44,6 +61,9 @@ class BrokenRepr(Exception):
 class MyBase(BaseException):
     pass
 class FaultMarker(Exception):
+    pass
+NoName = type('', (Exception,), {})
+class oops(Exception):
     pass
 def rec():
     return rec()
